@@ -774,6 +774,79 @@ def i10(prog: Program, chk: Check) -> None:
     c03.leg_role_table(prog, chk, "I10", ["backends.pt_tebd_backend:PtTebdBackend.apply_process_tensors"])
 
 
+def i12(prog: Program, chk: Check) -> None:
+    chk.rule("I12", "every bond of the chain gets a gate of its own: each element that "
+             "compute_trotter_layers collects is built for the bond of the current iteration "
+             "(compute_nn_gate(.., site=<loop index>, ..) with that bond's Liouvillian and the "
+             "dimensions of sites i, i+1). A gate object carries its site; one that is reused for "
+             "another bond with the same Liouvillian is applied twice at the first bond and never "
+             "at the second", floor=3)
+    from oqv.dataflow import origin as _origin
+    u = prog.unit("mps_mpo:compute_trotter_layers")
+    du = DefUse(u, CFG(u.node, exc_edges=False))
+    chk.saw(u, du.cfg)
+    n = 0
+    # collected elements: list.append in a loop, or the element of a comprehension
+    for loop in [x for x in walk_local(u.node) if isinstance(x, ast.For)]:
+        tgt = loop.target
+        idx = None
+        if isinstance(loop.iter, ast.Call) and call_name(loop.iter) == "enumerate" \
+                and isinstance(tgt, ast.Tuple) and isinstance(tgt.elts[0], ast.Name):
+            idx = tgt.elts[0].id
+        elif isinstance(loop.iter, ast.Call) and call_name(loop.iter) == "range" and isinstance(tgt, ast.Name):
+            idx = tgt.id
+        for c in [x for x in walk_local(loop) if isinstance(x, ast.Call) and method_call(x)
+                  and method_call(x)[1] == "append" and x.args]:
+            n += 1
+            o = c.args[0]
+            for _ in range(3):          # through plain locals, to the expression as written
+                if isinstance(o, ast.Name):
+                    d_ = du.unique_value(du.node_of(c), o.id)
+                    if d_ is None or d_.value is None or d_.sel:
+                        break
+                    o = d_.value
+            built = isinstance(o, ast.Call) and call_name(o) in ("compute_nn_gate", "NnGate")
+            site = kw_of(o).get("site") if built else None
+            if built and site is None and call_name(o) == "NnGate" and o.args:
+                site = o.args[0]
+            ok = built and idx is not None and isinstance(site, ast.Name) and site.id == idx \
+                and any(x is o for x in ast.walk(loop))
+            chk.add("I12", u, f"{norm(c)[:50]}: element <- {norm(o)[:40] if o is not None else '?'}", ok,
+                    f"gate built for bond {idx} in this iteration" if ok else
+                    "the collected gate is not built for the bond of this iteration (reused / taken "
+                    "from elsewhere): it keeps the site it was made for", c)
+    for lc in [x for x in walk_local(u.node) if isinstance(x, ast.ListComp)]:
+        o = lc.elt
+        if isinstance(o, ast.Call) and call_name(o) in ("compute_nn_gate", "NnGate"):
+            n += 1
+            g0 = lc.generators[0]
+            idx = None
+            if isinstance(g0.iter, ast.Call) and call_name(g0.iter) == "enumerate" \
+                    and isinstance(g0.target, ast.Tuple) and isinstance(g0.target.elts[0], ast.Name):
+                idx = g0.target.elts[0].id
+            elif isinstance(g0.iter, ast.Call) and call_name(g0.iter) == "range" and isinstance(g0.target, ast.Name):
+                idx = g0.target.id
+            site = kw_of(o).get("site")
+            ok = idx is not None and isinstance(site, ast.Name) and site.id == idx and not g0.ifs
+            chk.add("I12", u, f"[{norm(o)[:40]} for ...]", ok,
+                    "" if ok else "the gate's site is not the index of the bond it is built for", lc)
+    if n < 1:
+        raise AnalysisError("I12: compute_trotter_layers no longer collects gates bond by bond")
+    # the halves of the Trotter step take alternating bonds of that list
+    sl = [norm(x) for x in walk_local(u.node) if isinstance(x, ast.Subscript) and isinstance(x.slice, ast.Slice)]
+    ok = any(s_.endswith("[0::2]") or s_.endswith("[::2]") for s_ in sl) and any(s_.endswith("[1::2]") for s_ in sl)
+    chk.add("I12", u, f"even / odd layers: {sorted(set(sl))[:4]}", ok,
+            "" if ok else "the layers are not the even and the odd bonds")
+    cg = prog.unit("mps_mpo:compute_nn_gate")
+    chk.saw(cg)
+    built = [c for c in walk_local(cg.node) if isinstance(c, ast.Call) and call_name(c) == "NnGate"]
+    ok = bool(built) and all(
+        (isinstance(kw_of(c).get("site"), ast.Name) and kw_of(c)["site"].id == "site")
+        or (c.args and isinstance(c.args[0], ast.Name) and c.args[0].id == "site") for c in built)
+    chk.add("I12", cg, "compute_nn_gate builds NnGate(site=site, ..)", ok,
+            "" if ok else "the gate does not carry the site it was asked for")
+
+
 def run(prog: Program, chk: Check) -> None:
     chk.explanation = (
         "Decides two clauses of C10: 'all execution modes are usable' as far as name resolution "
@@ -798,3 +871,6 @@ def run(prog: Program, chk: Check) -> None:
     chk.call(i8, prog, chk)
     chk.call(i9, prog, chk)
     chk.call(i10, prog, chk)
+    from rules.c03 import site_gate_convention
+    chk.call(site_gate_convention, prog, chk, "I11")
+    chk.call(i12, prog, chk)
